@@ -80,13 +80,13 @@ PLANS = {
                      rec("pegRk", "peg", 30000, 10, 10, kinds=ALL_KINDS)],
     },
     "C08": {
-        "quick": [ex("rcv3", "rcv", 3, 3), rec("rcvR", "rcv", 1500, 8, 8)],
-        "thorough": [ex("rcv3", "rcv", 3, 4), rec("rcvR", "rcv", 30000, 10, 10)],
+        "quick": [ex("rcv3", "rcv", 3, 3), ex("rcvT", "rcvT", 1, 4, alphabet=["a", "b", "!"]), rec("rcvR", "rcv", 1500, 8, 8)],
+        "thorough": [ex("rcv3", "rcv", 3, 4), ex("rcvT", "rcvT", 1, 6, alphabet=["a", "b", "!"]), rec("rcvR", "rcv", 30000, 10, 10)],
     },
     "C11": {
-        "quick": [ex("memo3", "memo", 3, 3), ex("lrec", "lrec", 1, 5, alphabet=["a", "+"], invariants=NO_DEN), ex("recm", "rec", 1, 4, alphabet=["a", "b", "(", ")"]),
+        "quick": [ex("memo3", "memo", 3, 3), ex("memoT", "memoT", 1, 4), ex("lrec", "lrec", 1, 5, alphabet=["a", "+"], invariants=NO_DEN), ex("recm", "rec", 1, 4, alphabet=["a", "b", "(", ")"]),
                   rec("memoR", "memo", 1500, 8, 8)],
-        "thorough": [ex("memo3", "memo", 3, 4), ex("lrec", "lrec", 1, 7, alphabet=["a", "+"], invariants=NO_DEN), rec("memoR", "memo", 30000, 10, 10)],
+        "thorough": [ex("memo3", "memo", 3, 4), ex("memoT", "memoT", 1, 6), ex("lrec", "lrec", 1, 7, alphabet=["a", "+"], invariants=NO_DEN), rec("memoR", "memo", 30000, 10, 10)],
     },
     "C12": {
         "quick": [ex("rec", "rec", 1, 5, alphabet=["a", "b", "(", ")"]), rec("recR", "rec", 1500, 8, 10)],
@@ -97,8 +97,8 @@ PLANS = {
         "thorough": [ex("ctx3", "ctx", 3, 4), rec("ctxR", "ctx", 30000, 10, 10)],
     },
     "C17": {
-        "quick": [ex("lbl3", "lbl", 3, 3), rec("lblR", "lbl", 1500, 8, 8)],
-        "thorough": [ex("lbl3", "lbl", 3, 4), rec("lblR", "lbl", 30000, 10, 10)],
+        "quick": [ex("lbl3", "lbl", 3, 3), ex("lblT", "lblT", 1, 4, alphabet=["a", "b", "c"]), rec("lblR", "lbl", 1500, 8, 8)],
+        "thorough": [ex("lbl3", "lbl", 3, 4), ex("lblT", "lblT", 1, 5, alphabet=["a", "b", "c"]), rec("lblR", "lbl", 30000, 10, 10)],
     },
     "C18": {
         "quick": [ex("peg2", "peg", 2, 3), ex("emit3", "emit", 3, 3), rec("pegR", "peg", 1500, 8, 8), rec("emitR", "emit", 1500, 8, 8)],
